@@ -75,6 +75,11 @@ CHECKS = {
                      "combined as documented (BB vs SMA/SD, SlowStochastic vs EMA o FastStochastic, ATR vs EMA o TrueRange, MACD/PPO vs three EMAs, KC vs EMA/ATR, CE vs Min/Max/ATR, CCI vs SMA/MAD of the "
                      "typical price); EMA periods symbolic for ATR/MACD/KC, n<=4 (5), t=2n+3, also with a reset of composite and parts mid-stream; violations replayed natively (parts wired through the replay binary).",
                 technique="symbolic execution of rustc MIR into z3 (composite vs hand-wired parts); native replay", design='4/C15'),
+    'C14': dict(text="Bounded model checking by solver: two instances fed x and c*x (c in {2^-40, 2^40, 1/3, 7, ...}; symbolic c for the polynomial indicators) resp. x and x+d (d symbolic): price-valued "
+                     "outputs scale by c (SD and band half-widths through squares), dimensionless ones are unchanged, shifts move SMA/EMA/WMA/Min/Max/band levels by d and leave SD, MAD, TrueRange, ATR, MACD, "
+                     "FastStochastic unchanged, Maximum(x) == -Minimum(-x); all positive real prices / valid bars, n<=3 (4), t=2n+2; RSI excluded as in the statement; violations replayed natively with the "
+                     "1e-12 / 1e-9 clauses.",
+                technique="symbolic execution of rustc MIR into z3 (pairs of runs, scaling lemmas for abstracted quotients); native replay", design='4/C14'),
 }
 NA = {
     'C19': "decided by rustc's type checker once and for all; there is no input, state or schedule for an SMT/SAT solver to quantify over",
